@@ -45,6 +45,7 @@ def run(pid, tier, w, W, seed, out, limit):
   extra = {}
   items = 0
   nviol = 0
+  per_sig = {}
 
   cans = getattr(prop, 'CANARIES', [])
   for k, (name, fn) in enumerate(cans):
@@ -88,7 +89,10 @@ def run(pid, tier, w, W, seed, out, limit):
       extra[k2] = v2
     for v in res.get('viol', []):
       nviol += 1
-      if nviol <= 400:
+      # at most 3 reports per signature and worker (a known class with thousands of occurrences must not crowd out others)
+      c = per_sig.get(v.get('sig'), 0)
+      per_sig[v.get('sig')] = c + 1
+      if c < 3 and len(per_sig) <= 3000:
         f.write(json.dumps({'k': 'viol', 'v': v}, default=str) + '\n')
         f.flush()
   if hasattr(prop, 'worker_done'):
